@@ -9,6 +9,7 @@ CONSTANTS
   K1Kinds = {"none", "fx", "d"}
   K2Kinds = {"none", "l"}
   PickedOnly = FALSE
+  PreAll = TRUE
 INVARIANTS
   TypeOK
   C10_EscapesRejected
